@@ -21,7 +21,11 @@ def gen_invocation(rng, i):
         tries += 1
         if pats and rng.random() < 0.35:
             base = rng.choice(pats)
-            p = rng.choice([base + rng.choice(alpha), base[1:], rng.choice(alpha) + base])
+            # prefix / suffix extensions, and a pattern strictly inside a longer one (infix)
+            p = rng.choice([base + rng.choice(alpha), base[1:], rng.choice(alpha) + base,
+                            rng.choice(alpha) + base + rng.choice(alpha),
+                            rng.choice(alpha) + base + rng.choice(alpha) + rng.choice(alpha),
+                            base[1:-1] if len(base) >= 3 else base + base])
         else:
             p = "".join(rng.choice(alpha) for _ in range(rng.randint(1, 3)))
         if p and p not in pats:
